@@ -327,7 +327,7 @@ Fixpoint read_symbols_loop (fuel : nat) (x : xstate) (acc : list text) : xstate 
     end
   end.
 Definition read_symbols (fuel : nat) (x : xstate) : xstate * res (list text) :=
-  if negb (x_type x =? TList) then (x, Ok []) else
+  if negb (x_type x =? TList) || x_is_null x then (x, Ok []) else
   match x_step_in x with
   | (x, Ok true) =>
     match read_symbols_loop fuel x [] with
@@ -340,6 +340,11 @@ Definition read_symbols (fuel : nat) (x : xstate) : xstate * res (list text) :=
     end
   | (x, r) => (x, keep_bad r)                         (* StepIn refuses a null list: error *)
   end.
+
+(* readImports: "val.LocalSID == 3 || *val.Text == $ion_symbol_table" *)
+Definition is_append_marker (t : tok) : bool :=
+  (tk_sid t =? 3)%Z ||
+  match tk_text t with Some y => list_eqb y (s "$ion_symbol_table"%string) | None => false end.
 
 Record impdecl := { id_name : text; id_version : Z; id_maxid : Z }.
 Fixpoint read_import_loop (fuel : nat) (x : xstate) (d : impdecl) : xstate * res impdecl :=
@@ -427,7 +432,7 @@ Definition read_imports (fuel : nat) (x : xstate) : xstate * res (list imp) :=
       if x_err x then Some (x, Err) else
       match x_value x with
       | XSymbol t =>
-        if (tk_sid t =? 3)%Z then
+        if is_append_marker t then
           match x_lst x with
           | LSys => Some (x, Ok [])
           | LTab t0 =>
@@ -639,6 +644,10 @@ Definition next_before_type_annotations (fuel : nat) : R bool :=
                   else of_res (new_symbol_token (x_lst x) v));
         rdo _ <- rmod (fun x => xs_annots x (x_annots x ++ [k]));
         rret false
+    else if (tok =? tokenSymbol) && list_eqb v (s "$ion_1_0"%string) && x_at_top x
+            && match x_annots x with [] => true | _ => false end then
+      (* an unquoted, unannotated top-level $ion_1_0 is the version marker: the table is reset, no value *)
+      rdo _ <- rmod (fun x => xs_lst x LSys); rret false
     else if tok =? tokenSymbolQuoted then
       rdo _ <- set_value TSymbol (XSymbol (tok_text v)); rret true
     else rdo _ <- on_symbol v ws; rret true
